@@ -47,7 +47,7 @@ type acCase struct {
 // key derivation that looks at a bounded part of the name confuses them.
 const longPrefix = "projects/acme-build-infra/locations/europe-west4/instances/defau" // 64 bytes
 
-var instances = []string{"", "main", "a/b", "x/ac/y", "cas", "ünï/cödé", "blobs/z",
+var instances = []string{"", "main", "a/b", "x/ac/y", "cas", "ünï/cödé", "blobs/z", "my instance", "100%", "a%20b",
 	longPrefix, longPrefix + "a", longPrefix + "b", longPrefix[:63], longPrefix + longPrefix + "x", longPrefix + longPrefix + "y",
 	"a/" + longPrefix, "b/" + longPrefix}
 
@@ -429,6 +429,10 @@ func acScen(c *Ctx) {
 			hh := cl.HTTPHead(hp)
 			after := world.Observe(n)
 			hits := map[string]bool{"GetActionResult": gr.OK && got != nil, "http.GET": hg.Found && hg.OK, "http.HEAD": hh.Found}
+			if cs.instance != "" && hits["GetActionResult"] != hits["http.GET"] {
+				// the same (instance, key) through the two front ends
+				s.Violate("C15.frontends-agree", "instance", "instance %q key %s (stored via %s): gRPC hit=%v, HTTP hit=%v", cs.instance, short(cs.key), site, hits["GetActionResult"], hits["http.GET"])
+			}
 			for _, q := range []string{"GetActionResult", "http.GET", "http.HEAD"} {
 				if hits[q] != allPresent {
 					if allPresent {
